@@ -52,10 +52,11 @@ func logData(ctx context.Context, log *slog.Logger, data Data) {
 
 func (f *Fetcher) exchangeKeys(ctx context.Context) error {
 	if f.QUIC.Enabled {
-		conn, _, err := dialQUIC(f.Log, f.QUIC.LocalAddr, f.QUIC.RemoteAddr, f.QUIC.DaemonAddr, &f.TLSConfig)
+		conn, data, err := dialQUIC(f.Log, f.QUIC.LocalAddr, f.QUIC.RemoteAddr, f.QUIC.DaemonAddr, &f.TLSConfig)
 		if err != nil {
 			return err
 		}
+		f.data = data
 		defer func() {
 			err := conn.CloseWithError(quic.ApplicationErrorCode(0), "" /* error string */)
 			if err != nil {
